@@ -77,8 +77,38 @@ def scribble(t):
             n.children = list(reversed(n.children))
 
 
+def suspended_generators(I):
+    """generators of other parts of the library, started and left suspended while the histories run (an application
+    that consumes `LuceneCheck.check(tree)` or a visitor's `visit_iter` lazily parses other queries in between):
+    whatever such a generator changed around its `yield` -- the thread's decimal context, a module-level flag -- must
+    not reach the parser (seeded C01-H: a `localcontext()` with the InvalidOperation trap off, held open across a
+    yield)"""
+    from decimal import Decimal
+    T = I.tree
+    gens = []
+    try:
+        import luqum.check as C
+        for t in (T.Fuzzy(T.Word("a"), Decimal("-1")), T.Fuzzy(T.Word("a"), Decimal("NaN")),
+                  T.AndOperation(T.Word("a b"), T.SearchField("bad name", T.Word("x")), T.Fuzzy(T.Phrase('"p"'), 2))):
+            for zeal in (0, 1):
+                gens.append(C.LuceneCheck(zeal=zeal).check(t))
+        gens.append(I.visitor.TreeVisitor(track_parents=True).visit_iter(T.OrOperation(T.Word("a"), T.Word("b")), {}))
+    except Exception:
+        pass
+    alive = []
+    for g in gens:
+        try:
+            next(g)
+            alive.append(g)
+        except Exception:
+            pass
+    return alive
+
+
 def run(ctx):
     I = common.impl()
+    held = suspended_generators(I)
+    ctx.count("generators of the library left suspended during the histories", len(held))
     hs = make_histories(ctx, ctx.budget(150, 4000))
     flat = []
     prev = None
